@@ -213,6 +213,19 @@ def handle (st : St) (args : List String) (impl : String) : St × Verdict :=
     | some (_, P), some ids =>
       (st, cmpModel ("[" ++ ",".intercalate (ids.map fun i => if P.contains i then "1" else "0") ++ "]") impl)
     | _, _ => (st, .unknown)
+  | ["protect", s, hor] =>
+    -- the bitmap compaction receives as "spent above the horizon": walk over the head's own path
+    match implOf st s, getNode st s, (kv [hor] "hor").bind idOf with
+    | some S, some n, some hb =>
+      let l := (sortNat (inputPosToRewind n S (n.heightOf hb))).eraseDups
+      (st, cmpModel ("[" ++ ",".intercalate (l.map toString) ++ "]") impl)
+    | _, _, _ => (st, .diff "txhashset-model failed to follow the head")
+  | ["spentdrop", s, b] =>
+    -- the harness deleted the spent-index record of a block behind the node's back
+    match st.impls.find? (·.1 == s), idOf b with
+    | some (_, cur, some S), some id =>
+      (setImpl st s (cur, some { S with spentIdx := S.spentIdx.filter (fun e => !(e.1 == id)) }), cmpSpec "ok" impl)
+    | _, _ => (st, .unknown)
   | ["status", s] =>
     -- which blocks are announced as accepted, and whether as head or as fork, is fixed by the
     -- property (C03 observation point); Next-vs-Reorg and the fork point follow the code
